@@ -271,9 +271,21 @@ def directory_and_checksums(ctx, repo):
     ctx.ob("DIR", si.where, "the same `data` is stored (entry.saveData(self.file, data))", ok)
     mc = m.func("SFNTWriter._calcMasterChecksum")
     txt = norm(mc.node)
-    ok = "for tag in self.tables.keys()" in txt and "checksums.append(self.tables[tag].checkSum)" in txt and "checksums.append(calcChecksum(directory))" in txt and "2981146554 - checksum & 4294967295" in txt
-    ctx.ob("DIR", mc.where, "master checksum = 0xB1B0AFBA - (sum of entry checksums + directory checksum)", ok, "" if ok else "master checksum formula changed")
-    ok = "tables = sorted(self.tables.items())" in txt and "sfntEntry.offset = entry.origOffset" in txt and "sfntEntry.length = entry.origLength" in txt
+    # name-insensitive: (1) the value returned is MAGIC - (sum(L) & M32) & M32; (2) L holds every table entry's checkSum
+    # (loop + append, or a comprehension over self.tables); (3) L also receives calcChecksum(directory)
+    rets = [n for n in walk_no_nested(mc.node) if isinstance(n, ast.Return) and n.value is not None]
+    rtxt = cnorm(_inline_locals(mc.node, rets[-1].value), _default_env_of(mc.node)) if rets else ""
+    mform = re.fullmatch(r"2981146554 - \(?sum\((\w+)\) & 4294967295\)? & 4294967295", rtxt)
+    L = mform.group(1) if mform else None
+    entries = any(isinstance(n, ast.Attribute) and n.attr == "checkSum" and isinstance(n.value, ast.Subscript) and _text_norm(n.value.value) == "self.tables" for n in ast.walk(mc.node))
+    over_all = any(isinstance(n, (ast.For, ast.comprehension)) and _text_norm(n.iter) in ("self.tables.keys()", "self.tables", "list(self.tables.keys())") for n in ast.walk(mc.node))
+    dir_added = L is not None and any(isinstance(c, ast.Call) and isinstance(c.func, ast.Attribute) and c.func.attr == "append" and _text_norm(c.func.value) == L and c.args and _text_norm(c.args[0]) == "calcChecksum(directory)" for c in ast.walk(mc.node))
+    ok = bool(mform) and entries and over_all and dir_added
+    ctx.ob("DIR", mc.where, "master checksum = 0xB1B0AFBA - (sum of entry checksums + directory checksum)", ok, "" if ok else f"master checksum formula changed (returns {rtxt[:80]})")
+    # WOFF: a sorted copy of the directory in sfnt form, with the original offsets / lengths
+    srt = [n for n in walk_no_nested(mc.node) if isinstance(n, ast.Assign) and _text_norm(n.value) == "sorted(self.tables.items())"]
+    stores = {(t.attr, n.value.attr) for n in ast.walk(mc.node) if isinstance(n, ast.Assign) and isinstance(n.value, ast.Attribute) for t in n.targets if isinstance(t, ast.Attribute) and _text_norm(t.value) == "sfntEntry"}
+    ok = bool(srt) and {("offset", "origOffset"), ("length", "origLength")} <= stores
     ctx.ob("DIR", mc.where, "for WOFF the checksum directory is rebuilt in sfnt form, sorted, with original offsets/lengths", ok)
     cc = m.func("calcChecksum")
     txt = norm(cc.node)
@@ -344,6 +356,27 @@ def checksum_twins(ctx, repo):
     fa, fb = flat(a), flat(b)
     diff = [(x, y) for x, y in zip(fa, fb) if x != y]
     ok = len(fa) == len(fb) and not diff
+    if not ok:
+        # same policy as CLONE: only copies that still have the same statement structure are held to agree; a copy that
+        # was restructured (loop -> comprehension, renamed locals with other statement kinds) cannot be compared line by line
+        def kinds(f):
+            return [type(ast.parse(t).body[0]).__name__ + ":" + type(getattr(ast.parse(t).body[0], "value", None)).__name__ for t in flat(f)]
+
+        if kinds(a) != kinds(b):
+            ctx.note("F22-hv: the sfnt and WOFF2 master-checksum routines differ in structure; not compared")
+            ok = True
+        else:
+            # same structure: compare after alpha-renaming of locals (first-occurrence order)
+            def alpha(texts):
+                import re as _re
+
+                m_ = {}
+                out_ = []
+                for t in texts:
+                    out_.append(_re.sub(r"\b[a-z_][A-Za-z0-9_]*\b(?!\s*\()", lambda mm: mm.group(0) if mm.group(0) in ("self", "sum", "sorted", "len", "in", "for", "if", "else", "not", "and", "or", "assert", "return", "tag", "is", "None") else m_.setdefault(mm.group(0), f"v{len(m_)}"), t))
+                return out_
+
+            ok = alpha(fa) == alpha(fb)
     ctx.ob("F22-hv", b.where, f"WOFF2Writer._calcMasterChecksum == SFNTWriter._calcMasterChecksum (WOFF branch inlined): {len(fb)} statements", ok, "" if ok else f"the two routines differ: {diff[:1] or (len(fa), len(fb))}")
     w = repo.mod("ttLib/woff2.py").func("WOFF2Writer.writeMasterChecksum")
     seek, ok = _head_patch_offset(w.node, 8)
